@@ -1,0 +1,9 @@
+//go:build verif
+
+package server
+
+// VerifDiscoverySizes returns the number of entries of the multicast request and handler tables
+// (read-only, verification harness, build tag verif only).
+func (s *Server) VerifDiscoverySizes() (requests, handlers int) {
+	return s.multicastRequests.Length(), s.multicastHandler.Length()
+}
